@@ -682,6 +682,14 @@ def stepReg (st : DSt) (r : Report) (ln : Nat) (cmd obs : List String) : Option 
           let ratios := (List.range size).all (fun i =>
             i &&& m' != v || closeC ((pre.getD i 0).scale lam) (impl.getD i 0))
           let r := specCheck r st ln "c06.ratio" (pv ≤ 1e-20 || ratios) s!"pre * {lam}" (showVec impl)
+          -- SPEC (C07, sequential measurements): the state left behind carries the Born distribution conditioned on the
+          -- returned value - |pre_i|^2 / P(v) on the consistent basis states, 0 elsewhere
+          let implNorm := (List.range impl.size).foldl (fun acc i => acc + (impl.getD i 0).normSq) 0
+          let condOK := (List.range size).all (fun i =>
+            let want := if i &&& m' == v then (pre.getD i 0).normSq / pv else 0
+            Float.abs (want - (impl.getD i 0).normSq / implNorm) ≤ 1e-7)
+          let r := specCheck r st ln "c07.conditional" (pv ≤ 1e-12 || (implNorm > 0 && condOK))
+            "Born distribution conditioned on the outcome" (showVec impl)
           r
       let r := specValid r st ln q.qNum impl
       some ({ st with q := some q', c := some c', implPsi := impl }, r)
